@@ -432,4 +432,26 @@ Proof.
   unfold fold. specialize (A nm0 H0). destruct (fast fb) as [|kv a]; [discriminate|]. rewrite Hk. reflexivity.
 Qed.
 
+(* the same for the engine as it runs (memo, seeds, seed-growing loop): whatever the call machinery does, the caller's frame
+   only gets one more element - its names are untouched *)
+Lemma fcall_k k (ev : @ev_t gstate) r f st v f' st' :
+  fcall text re_at upper ic rules ec act lineat k ev r f st = (Ok v f', st') -> Grows f f'.
+Proof.
+  unfold fcall. intros E.
+  destruct (get_rule rules r) as [rl|]; [|discriminate].
+  destruct (if r_tokn rl then Some (pos f) else next_token text re_at ic (pos f)) as [p|]; [|discriminate].
+  destruct (if r_lrec rl then recursive_call upper ic ec act lineat k ev rl r (p, r) st
+            else rule_call upper ic ec act lineat ev rl r (p, r) st) as [[node np| |x] st1]; try discriminate.
+  inversion E; subst. unfold Grows. cbn [fast append goto]. apply keys_le_refl.
+Qed.
+
+Theorem feval_sequence_defines_all_names n es f st r f' st' :
+  feval text re_at isalnum isalpha lower upper ic unsafe rules ec act lineat (S n) (Seq es) f st = (Ok r f', st') ->
+  forall nm, In nm (def_single (Seq es)) \/ In nm (def_list (Seq es)) ->
+  ast_has (fast f') (safekey unsafe nm) = true.
+Proof.
+  unfold feval. intros E.
+  eapply (sequence_defines_all_names text re_at isalnum isalpha lower ic unsafe _ _ fcall_k); exact E.
+Qed.
+
 End CleanKeys.
